@@ -12,9 +12,11 @@ def parseUse (j : Json) : Option Use :=
   | some "encryption" => some .encryption
   | _ => none
 
-/-- "certs": null = KeyInfo without X509Data; a null entry = X509Data without certificate -/
+/-- "certs": null = KeyInfo without X509Data; a null entry = X509Data without certificate; an entry ""
+    = an EMPTY X509Certificate element (contributes none, fix 2dbe22bb) -/
 def parseKd (j : Json) : KeyDescr String :=
-  { use := parseUse j, x509 := ((arr? j "certs").getD []).map asStr? }
+  { use := parseUse j,
+    x509 := ((arr? j "certs").getD []).map (fun c => match asStr? c with | some "" => none | x => x) }
 
 def parseKind : String → Option RoleKind
   | "spsso" => some .spsso
@@ -57,9 +59,22 @@ def keyless (md : Metadata String String) (issuer : Option String) : Bool :=
     | none => false
     | some ent => ent.roles.any (fun r => r.keys.any (fun kd => applicable .signing kd && (kdCerts kd).isEmpty))
 
-def envPath (onlyMd : Bool) (md : Metadata String String) (m : Msg String String) : String :=
-  let r := checkSignature true Gen.KeysDefaults.roleOrder onlyMd md m
+def kindOfCase (c : Json) : String → CertKind := fun name =>
+  match (obj? c "cert_kinds").bind (fun k => str? k name) with
+  | some "other" => .other
+  | some "malformed" => .malformed
+  | _ => .rsa
+
+def parseMsg (j : Json) : Msg String String :=
+  let kij := (obj? j "keyinfo").getD Json.null
+  -- `_issuer = item.issuer.text.strip()`
+  { issuer := (str? j "issuer").map (fun (s : String) => s.trimAscii.toString), signer := str? j "signer",
+    keyInfo := { certs := strList kij "certs", rsa := str? kij "rsa" } }
+
+def envPath (kindOf : String → CertKind) (onlyMd : Bool) (md : Metadata String String) (m : Msg String String) : String :=
+  let r := checkSignature true kindOf Gen.KeysDefaults.roleOrder onlyMd md m
   let fromMd := (mdCerts Gen.KeysDefaults.roleOrder md m.issuer .signing).getD []
+  let nonRsa := if r.handed.any (fun c => kindOf c != .rsa) then "+non-rsa-cert-tried" else ""
   let out :=
     if fromMd.isEmpty then
       if onlyMd then "missing-key/only-md"
@@ -70,14 +85,28 @@ def envPath (onlyMd : Bool) (md : Metadata String String) (m : Msg String String
     else match r.verdict with
       | .accepted => if r.handed.length ≤ 1 then "accepted-first-cert" else "accepted-later-cert"
       | _ => "none-verifies"
-  lookupTag md m.issuer ++ "/" ++ out
+  lookupTag md m.issuer ++ "/" ++ out ++ nonRsa
 
-def detPath (md : Metadata String String) (m : Msg String String) : String :=
-  let r := redirectCheck Gen.KeysDefaults.roleOrder md m.issuer m.signer
-  match r.verdict with
+def detPath (kindOf : String → CertKind) (own : String) (md : Metadata String String) (m : Msg String String) : String :=
+  let r := redirectCheck kindOf own Gen.KeysDefaults.roleOrder md m.issuer m.signer
+  let nonRsa := if r.handed.any (fun c => kindOf c == .other) then "+non-rsa-cert-tried" else ""
+  (match r.verdict with
   | .lookupFailed => "lookup-failed:" ++ lookupTag md m.issuer
+  | .verifyRaised => "malformed-cert-raises"
   | .accepted => if r.handed.length ≤ 1 then "accepted-first-cert" else "accepted-later-cert"
-  | _ => if r.handed.isEmpty then "no-signing-cert" else "none-verifies"
+  | _ => if r.handed.isEmpty then "no-signing-cert" else "none-verifies") ++ nonRsa
+
+def whyNot (cfg : Option Bool) (md : Metadata String String) (m : Msg String String) (restrictedImpl : Bool) : String :=
+  let bound := boundKeys md m.issuer
+  match m.signer with
+  | none => "accepted-although-no-key-verifies"
+  | some k =>
+    if m.keyInfo.certs.contains k || m.keyInfo.rsa == some k then
+      if !restrictedImpl then "embedded-key-used-by-unrestricted-xmlsec"
+      else if policy cfg then "embedded-key-accepted-under-metadata-only-policy"
+      else if !bound.isEmpty then "fallback-although-metadata-has-keys"
+      else "embedded-non-certificate-key-accepted"
+    else "unbound-key-accepted"
 
 def handle (line : Json) : Json :=
   let c := (obj? line "case").getD Json.null
@@ -86,45 +115,56 @@ def handle (line : Json) : Json :=
   let md := mkMd (parseEntities mdj)
   let cfg := bool? c "only_md"
   let onlyMd := cfg.getD Gen.KeysDefaults.onlyMdDefault
-  let kij := (obj? c "keyinfo").getD Json.null
-  let ki : KeyInfo String := { certs := strList kij "certs", rsa := str? kij "rsa" }
-  -- `_issuer = item.issuer.text.strip()`
-  let m : Msg String String := { issuer := (str? c "issuer").map (fun (s : String) => s.trimAscii.toString), signer := str? c "signer", keyInfo := ki }
-  let hasKi := !(ki.certs.isEmpty && ki.rsa.isNone)
+  let kindOf := kindOfCase c
+  let own := strD c "own" "sp"          -- the receiver's own key in every harness configuration
+  let ord := Gen.KeysDefaults.roleOrder
+  let m := parseMsg c
+  let first := parseMsg ((obj? c "first").getD Json.null)
+  let hasKi := !(m.keyInfo.certs.isEmpty && m.keyInfo.rsa.isNone)
   let kindS := strD c "kind"
-  let kind : Kind := if kindS == "redirect" then .detached hasKi else .enveloped
-  let o := accept true Gen.KeysDefaults.roleOrder onlyMd md kind m
+  -- advice_plain: the advice assertion's own signature is never looked at; only `first` is a checked item
+  let (kind, item) : Kind String String × Msg String String :=
+    if kindS == "redirect" || kindS == "logout_redirect" then (.detached hasKi, m)
+    else if kindS == "advice_enc" then (.after first true, m)
+    else if kindS == "plain_plus_enc" then (.after first false, m)
+    else if kindS == "advice_plain" then (.enveloped, first)
+    else (.enveloped, m)
+  let o := accept true kindOf own ord onlyMd md kind item
   let handed := (tag "x:" o.handedX).eraseDups ++ (tag "r:" o.handedR).eraseDups
   let path :=
     match kind with
-    | .enveloped => "env/" ++ envPath onlyMd md m
+    | .enveloped => (if kindS == "advice_plain" then "outer-only/" else "env/") ++ envPath kindOf onlyMd md item
     | .detached env =>
       if env then
-        if (checkSignature true Gen.KeysDefaults.roleOrder onlyMd md m).verdict = .accepted then
-          "det+env/" ++ envPath onlyMd md m ++ "|" ++ detPath md m
-        else "det+env/" ++ envPath onlyMd md m
-      else "det/" ++ detPath md m
+        if (checkSignature true kindOf ord onlyMd md item).verdict = .accepted then
+          "det+env/" ++ envPath kindOf onlyMd md item ++ "|" ++ detPath kindOf own md item
+        else "det+env/" ++ envPath kindOf onlyMd md item
+      else "det/" ++ detPath kindOf own md item
+    | .after f withArg =>
+      let pre := if withArg then "advice/" else "second/"
+      if (checkSignature true kindOf ord onlyMd md f).verdict = .accepted then
+        let rel := if item.issuer == f.issuer then "same-issuer" else "other-issuer"
+        pre ++ rel ++ "/" ++ envPath kindOf onlyMd md (attributed (if withArg then f.issuer else none) item)
+      else pre ++ "first-refused/" ++ envPath kindOf onlyMd md f
+  -- a metadata source that was loaded first and dropped by a reload is no input of the model
+  let path := if (obj? c "stale").isSome then "after-reload/" ++ path else path
   let implAcc := boolD impl "accepted"
-  let specImpl := specAccept cfg md m implAcc
-  let bound := boundKeys md m.issuer
+  let specImpl := specKind cfg md kind item implAcc
+  let restrictedImpl := boolD impl "restricted" true
   let why : String :=
     if specImpl then "" else
-    match m.signer with
-    | none => "accepted-although-no-key-verifies"
-    | some k =>
-      if ki.certs.contains k || ki.rsa == some k then
-        if !(boolD impl "restricted" true) then "embedded-key-used-by-unrestricted-xmlsec"
-        else if policy cfg then "embedded-key-accepted-under-metadata-only-policy"
-        else if !bound.isEmpty then "fallback-although-metadata-has-keys"
-        else "embedded-non-certificate-key-accepted"
-      else "unbound-key-accepted"
+    match kind with
+    | .after f withArg =>
+      if !keyOriginB (policy cfg) md f then "first-item:" ++ whyNot cfg md f restrictedImpl
+      else "nested-item:" ++ whyNot cfg md (attributed (if withArg then f.issuer else none) item) restrictedImpl
+    | _ => whyNot cfg md item restrictedImpl
   Json.mkObj [
     ("model", Json.mkObj [("accepted", o.accepted), ("handed", jstrs handed), ("restricted", true)]),
     ("path", path),
-    ("spec_model", specAccept cfg md m o.accepted),
+    ("spec_model", specKind cfg md kind item o.accepted),
     ("spec_impl", specImpl),
     ("why", why),
-    ("keyless", keyless md m.issuer),
-    ("bound", jstrs bound)]
+    ("keyless", keyless md item.issuer),
+    ("bound", jstrs (boundKeys md item.issuer))]
 
 def main : IO Unit := serve handle
